@@ -646,3 +646,106 @@ Lemma rs_commit_plain_premise_refuted :
     rs_premise (reach n m hosts evs) = true /\ rs_ok_ev_weak (reach n m hosts evs) ECommit = true /\
     intact_named (rstep (reach n m hosts evs) ECommit) < n.
 Proof. exists 2, 1, [1; 2; 3]%N, rs_o5. vm_compute. repeat split; auto. Qed.
+
+(* ------------------------------------------------------------------ the named list stays distinct and n+m long *)
+Definition HInv (st : rs) : Prop := NoDup (r_hosts st) /\ length (r_hosts st) = r_n st + r_m st.
+
+Lemma hosts_step : forall st ev, r_hosts (rstep st ev) <> r_hosts st -> ev = ECommit.
+Proof.
+  intros st ev H. destruct ev; try reflexivity; exfalso; apply H; cbn [rstep];
+    repeat match goal with |- context [match ?x with _ => _ end] => destruct x end; reflexivity.
+Qed.
+
+Lemma distinctN_NoDup : forall l, distinctN l = true -> NoDup l.
+Proof.
+  induction l as [|x l IH]; intros H; [constructor|]. cbn in H. apply andb_true_iff in H as [A B]. apply negb_true_iff in A.
+  constructor; [|auto]. intro I. apply memN_in in I. congruence.
+Qed.
+
+Lemma plan_hosts_nodup : forall n m hosts bad newids p, reconstruct_plan n m hosts bad newids = Some p ->
+  NoDup hosts -> fresh hosts newids = true -> distinctN newids = true -> NoDup (p_hosts p).
+Proof.
+  intros n m hosts bad newids p P ND F DN.
+  destruct (plan_commit_exact _ _ _ _ _ _ P) as (LH & NEW & KEEP). destruct (plan_newids_length _ _ _ _ _ _ P) as (LN & _ & _).
+  pose proof (distinctN_NoDup _ DN) as NDn. pose proof (dst_of_nodup hosts bad) as NDd.
+  apply (proj2 (NoDup_nth (p_hosts p) 0%N)). intros i j Li Lj E. rewrite LH in Li, Lj.
+  (* where a value of the new list comes from *)
+  assert (SRC : forall k, k < length hosts ->
+            (~ In k (dst_of hosts bad) /\ nth k (p_hosts p) 0%N = nth k hosts 0%N) \/
+            (exists q, q < length (dst_of hosts bad) /\ nth q (dst_of hosts bad) 0 = k /\ nth k (p_hosts p) 0%N = nth q newids 0%N)).
+  { intros k Lk. destruct (in_dec Nat.eq_dec k (dst_of hosts bad)) as [J|J]; [|left; split; auto].
+    right. destruct (In_nth _ _ 0 J) as (q & Lq & Eq). exists q. split; auto. split; auto. rewrite <- Eq. auto. }
+  destruct (SRC i Li) as [[Ni Ei]|(q & Lq & Eq & Ei)]; destruct (SRC j Lj) as [[Nj Ej]|(q' & Lq' & Eq' & Ej)]; rewrite Ei, Ej in E.
+  - apply (proj1 (NoDup_nth hosts 0%N) ND); auto.
+  - exfalso. apply (fresh_not_in hosts newids (nth q' newids 0%N) F); [apply nth_In; lia|]. rewrite <- E. apply nth_In. exact Li.
+  - exfalso. apply (fresh_not_in hosts newids (nth q newids 0%N) F); [apply nth_In; lia|]. rewrite E. apply nth_In. exact Lj.
+  - assert (q = q') by (apply (proj1 (NoDup_nth newids 0%N) NDn); auto; lia). subst q'. congruence.
+Qed.
+
+Lemma HInv_step : forall st ev, Inv st -> HInv st -> HInv (rstep st ev).
+Proof.
+  intros st ev I [ND LH]. unfold HInv. rewrite n_const, m_const.
+  destruct (list_eq_dec N.eq_dec (r_hosts (rstep st ev)) (r_hosts st)) as [E|NE]; [rewrite E; auto|].
+  pose proof (hosts_step st ev NE). subst ev. cbn [rstep] in *.
+  destruct (r_att st) as [a|] eqn:EA; [|contradiction]. destruct (Nat.eqb (a_left a) 0); [|contradiction]. cbn [r_hosts upd].
+  destruct (i_att st I a EA) as (P & F & DN & _). destruct (plan_commit_exact _ _ _ _ _ _ P) as (LP & _ & _).
+  split; [eapply plan_hosts_nodup; eauto | congruence].
+Qed.
+
+Lemma InvH_run : forall evs st, Inv st -> HInv st -> rs_ok_run rs_ok_ev st evs = true -> Inv (rrun st evs) /\ HInv (rrun st evs).
+Proof.
+  induction evs as [|ev evs IH]; intros st I H OK; [auto|]. cbn in OK. apply andb_true_iff in OK as [O1 O2]. cbn.
+  apply IH; auto; [now apply Inv_step | now apply HInv_step].
+Qed.
+
+Lemma rs_repair_progress2 : forall n m hosts evs, NoDup hosts -> length hosts = n + m ->
+  rs_ok_run rs_ok_ev (rs_init n m hosts) evs = true ->
+  let st := reach n m hosts evs in
+  (NoDup (r_hosts st) /\ length (r_hosts st) = n + m) /\
+  (intact_named st + bad_named st = length (r_hosts st)) /\
+  (forall ev, abandons ev = true ->
+     r_hosts (rstep st ev) = r_hosts st /\ bad_named (rstep st ev) = bad_named st /\ intact_named (rstep st ev) = intact_named st) /\
+  (forall newids incs,
+     0 < bad_named st -> fresh (r_hosts st) newids = true -> distinctN newids = true -> length newids = bad_named st -> 0 < incs ->
+     let run := heal_run (length (r_hosts st)) newids incs in
+     rs_ok_run rs_ok_ev st run = true /\ forallb plain run = true /\
+     bad_named (rrun st run) = 0 /\ intact_named (rrun st run) = n + m /\ r_att (rrun st run) = None).
+Proof.
+  intros n m hosts evs ND LH OK st. assert (L : n <= length hosts) by lia.
+  destruct (InvH_run evs _ (Inv_init n m hosts L) (conj ND LH) OK) as [I [H1 H2]]. fold (reach n m hosts evs) in I, H1, H2. fold st in I, H1, H2.
+  assert (N : r_n st = n) by (unfold st, reach; rewrite n_run; reflexivity).
+  assert (M : r_m st = m) by (unfold st, reach; rewrite m_run; reflexivity).
+  rewrite N, M in H2. destruct (rs_repair_progress n m hosts evs L OK) as (A & B & C). fold st in A, B, C.
+  split; [auto|]. split; [exact A|]. split; [exact B|]. intros newids incs. exact (C newids incs H1 H2).
+Qed.
+
+(* ------------------------------------------------------------------ the step line 94 of the harness *)
+From BLB Require C04.RSModel.
+Lemma ok_run_app : forall l l' st, rs_ok_run rs_ok_ev st (l ++ l') = rs_ok_run rs_ok_ev st l && rs_ok_run rs_ok_ev (rrun st l) l'.
+Proof. induction l as [|x l IH]; intros l' st; [reflexivity|]. cbn. rewrite IH. apply andb_assoc. Qed.
+
+Lemma hosts_seg : forall seg st, ~ In ECommit seg -> r_hosts (rrun st seg) = r_hosts st.
+Proof.
+  induction seg as [|ev seg IH]; intros st N; [reflexivity|]. cbn. rewrite IH by (intro X; apply N; right; exact X).
+  destruct (list_eq_dec N.eq_dec (r_hosts (rstep st ev)) (r_hosts st)) as [E|NE]; [exact E|]. exfalso. apply N. left. symmetry. exact (hosts_step st ev NE).
+Qed.
+
+(* a step of the harness = a segment of accepted model events (a reconstruction step is detect .. commit); kind 5 is the
+   only kind whose segment may contain the commit; whatever the fault flag says, the verdict of line 94 is 1 *)
+Lemma rs_step_verdict_sound : forall n m hosts evs seg kind fault, n <= length hosts ->
+  rs_ok_run rs_ok_ev (rs_init n m hosts) evs = true ->
+  let st := reach n m hosts evs in
+  rs_ok_run rs_ok_ev st seg = true -> (kind <> C04.RSModel.K_STEP_RECON -> ~ In ECommit seg) ->
+  let st' := rrun st seg in
+  C04.RSModel.rs_step_judge kind (Z.of_nat n) (Z.of_nat (intact_named st)) (Z.of_nat (intact_named st'))
+    (if list_eq_dec N.eq_dec (r_hosts st') (r_hosts st) then 0%Z else 1%Z) fault = 1%Z.
+Proof.
+  intros n m hosts evs seg kind fault L OK st OKS NC st'.
+  assert (OK2 : rs_ok_run rs_ok_ev (rs_init n m hosts) (evs ++ seg) = true) by (rewrite ok_run_app, OK; exact OKS).
+  destruct (rs_no_loss n m hosts (evs ++ seg) L OK2) as [A _]. rewrite rrun_app in A. fold (reach n m hosts evs) in A. fold st in A. fold st' in A.
+  unfold C04.RSModel.rs_step_judge.
+  assert (X : (Z.of_nat (intact_named st') <? Z.of_nat n)%Z = false) by (apply Z.ltb_ge; lia). rewrite X, andb_false_r.
+  destruct (list_eq_dec N.eq_dec (r_hosts st') (r_hosts st)) as [E|NE]; [reflexivity|].
+  destruct (Z.eq_dec kind C04.RSModel.K_STEP_RECON) as [K|K]; [subst kind; reflexivity|].
+  exfalso. apply NE. unfold st'. apply hosts_seg. now apply NC.
+Qed.
